@@ -28,7 +28,9 @@ impl SplitPair {
     }
 }
 
-const RATIOS: [(&str, &str); 16] = [("2", "1"), ("3", "1"), ("1", "2"), ("3", "2"), ("1", "3"), ("2", "3"), ("10", "1"), ("1", "10"), ("1.5", "1"), ("7", "3"), ("4", "1"), ("5", "1"), ("1", "4"), ("5", "2"), ("1", "6"), ("4", "3")];
+// (the last two are reverse splits NOT in lowest terms, written without decimals: whole shares only - every balance is a multiple of 3, so
+// a third of it is whole)
+const RATIOS: [(&str, &str); 18] = [("2", "1"), ("3", "1"), ("1", "2"), ("3", "2"), ("1", "3"), ("2", "3"), ("10", "1"), ("1", "10"), ("1.5", "1"), ("7", "3"), ("4", "1"), ("5", "1"), ("1", "4"), ("5", "2"), ("1", "6"), ("4", "3"), ("2", "6"), ("3", "9")];
 
 /// Build H (all quantities multiples of 3, later per-share amounts multiples of a) and H' (split inserted, later rows restated).
 fn build(head: &Intent, pre: &[Intent], events: &[Intent]) -> SplitPair {
@@ -116,7 +118,8 @@ fn build(head: &Intent, pre: &[Intent], events: &[Intent]) -> SplitPair {
     }
     // H': split rows + restated later rows
     let per_affiliate = head.cur % 2 == 0;
-    let ratio = if b.gt(&a) || sa.contains('.') { format!("{}-for-{}", if sa.contains('.') { sa.to_string() } else { format!("{sa}.0") }, if sb.contains('.') { sb.to_string() } else { format!("{sb}.0") }) } else { format!("{sa}-for-{sb}") };
+    let whole_only = matches!((sa, sb), ("2", "6") | ("3", "9"));
+    let ratio = if whole_only { format!("{sa}-for-{sb}") } else if b.gt(&a) || sa.contains('.') { format!("{}-for-{}", if sa.contains('.') { sa.to_string() } else { format!("{sa}.0") }, if sb.contains('.') { sb.to_string() } else { format!("{sb}.0") }) } else { format!("{sa}-for-{sb}") };
     let mut ids: Vec<String> = base.iter().map(|r| r.af.clone()).collect();
     if opening.is_some() && !ids.iter().any(|a| affiliate_id(a).0 == "default") { ids.push(String::new()); }
     ids.sort(); ids.dedup();
